@@ -435,12 +435,15 @@ enum Target
   TListening = 0,
   TRefused,      // TCP: bound, not listening.  UDP: port whose socket was closed (ICMP)
   TUnresolvable, // host name that is not a name
-  TBlackHole     // TCP only
+  TBlackHole,    // TCP only
+  TTlsGarbage,   // TCP only: TLS client connect to a raw peer that answers garbage
+  TTlsStall,     // TCP only: TLS client connect to a raw peer that never answers (handshakeTimeout)
+  kTargetMax
 };
 const char *targetName(int t)
 {
-  static const char *n[] = {"listening", "refused", "unresolvable", "blackhole"};
-  return n[t & 3];
+  static const char *n[] = {"listening", "refused", "unresolvable", "blackhole", "tls-garbage", "tls-stall"};
+  return n[(t % kTargetMax + kTargetMax) % kTargetMax];
 }
 
 struct LOp
@@ -508,6 +511,16 @@ void runLifecycle(const LPlan &plan, pbt::Case &c)
   cfg.idleTimeout = std::chrono::seconds(plan.gcCase ? 1 : 600);
   cfg.connectTimeout = std::chrono::milliseconds(plan.connectTimeoutMs);
   cfg.maxWriteQueue = static_cast<std::size_t>(plan.maxWriteQueue);
+  bool needTls = false;
+  for (auto &o : plan.ops)
+    if ((o.op == NewConnect || o.op == NewSync || o.op == NewVia) && (o.a % kTargetMax == TTlsGarbage || o.a % kTargetMax == TTlsStall)) needTls = true;
+  if (needTls && !plan.udp)
+  {
+    cfg.clientTls.enabled = true;
+    cfg.clientTls.defaultMode = TlsMode::Client;
+    cfg.clientTls.verifyPeer = false;
+    cfg.handshakeTimeout = std::chrono::milliseconds(2 * plan.connectTimeoutMs);
+  }
   const bool smallQueue = plan.maxWriteQueue <= 4;
   if (smallQueue) cfg.soSndBuf = 4096;
   const int peerRcvBuf = smallQueue ? 4096 : 0;
@@ -713,8 +726,10 @@ void runLifecycle(const LPlan &plan, pbt::Case &c)
     std::string host = "127.0.0.1";
     std::uint16_t port = 0;
     int lfd = -1;
-    if (udp && target == TBlackHole) target = s.target = TListening;
-    if (target == TListening)
+    if (udp && (target == TBlackHole || target == TTlsGarbage || target == TTlsStall)) target = s.target = TListening;
+    if (via && (target == TTlsGarbage || target == TTlsStall)) target = s.target = TListening;
+    const bool tls = target == TTlsGarbage || target == TTlsStall;
+    if (target == TListening || tls)
     {
       lfd = udp ? bag.add(c02raw::udpBind(port)) : bag.add(c02raw::tcpListen(port, 8, peerRcvBuf));
       if (lfd < 0)
@@ -752,6 +767,17 @@ void runLifecycle(const LPlan &plan, pbt::Case &c)
       port = hole.port;
     }
     ConnectResult r = ConnectResult::err(TransportErrorInfo{});
+    // TLS targets: the raw side must act while connectSync blocks this thread
+    std::thread tlsPeer;
+    int tlsFd = -1;
+    if (tls)
+      tlsPeer = std::thread(
+        [&tlsFd, lfd, target]
+        {
+          tlsFd = c02raw::tcpAccept(lfd, 10000);
+          static const char garbage[] = "HTTP/1.1 400 this is not a TLS record\r\n\r\n";
+          if (tlsFd >= 0 && target == TTlsGarbage) c02raw::sendAll(tlsFd, garbage, sizeof(garbage) - 1, 1000);
+        });
     if (via)
     {
       ListenerId useLid = target == TRefused ? lid + 1000 : lid; // "refused" for via = unknown listener
@@ -760,10 +786,15 @@ void runLifecycle(const LPlan &plan, pbt::Case &c)
     else if (sync)
     {
       int tmo = target == TBlackHole ? 40 + plan.connectTimeoutMs / 2 : 10000;
-      r = t->connectSync(host, port, TlsMode::None, std::chrono::milliseconds(tmo));
+      r = t->connectSync(host, port, tls ? TlsMode::Client : TlsMode::None, std::chrono::milliseconds(tmo));
     }
     else
-      r = t->connect(host, port, TlsMode::None);
+      r = t->connect(host, port, tls ? TlsMode::Client : TlsMode::None);
+    if (tlsPeer.joinable())
+    {
+      tlsPeer.join();
+      bag.add(tlsFd);
+    }
     if (!r.isOk())
     {
       c.label(std::string(sync ? "connectSync" : via ? "via" : "connect") + "-error/" + targetName(target));
@@ -789,6 +820,12 @@ void runLifecycle(const LPlan &plan, pbt::Case &c)
         s.rawFd = lfd;
         s.established = true;
       }
+    }
+    else if (tls)
+    {
+      s.rawFd = tlsFd;
+      s.established = tlsFd >= 0; // FIN/RST during the handshake are fair game
+      if (tlsFd >= 0) issueCause(s, target == TTlsGarbage ? Cause::TlsFailure : Cause::HandshakeTimeout, true);
     }
     else
     {
@@ -882,11 +919,11 @@ void runLifecycle(const LPlan &plan, pbt::Case &c)
     switch (op.op)
     {
     case NewAccept: newAccept(); break;
-    case NewConnect: newConnect(op.a & 3, false, false, op.b % 2); break;
-    case NewSync: newConnect(op.a & 3, true, false, true); break;
+    case NewConnect: newConnect(op.a % kTargetMax, false, false, op.b % 2); break;
+    case NewSync: newConnect(op.a % kTargetMax, true, false, true); break;
     case NewVia:
-      if (udp) newConnect(op.a & 3, false, true, op.b % 2);
-      else newConnect(op.a & 3, false, false, op.b % 2);
+      if (udp) newConnect(op.a % kTargetMax, false, true, op.b % 2);
+      else newConnect(op.a % kTargetMax, false, false, op.b % 2);
       break;
     case AppClose:
       if (auto *s = pick(op.a)) appClose(*s);
@@ -1031,6 +1068,7 @@ void runLifecycle(const LPlan &plan, pbt::Case &c)
   o.gaugeAfterStop = t->getStats().sessionsCurrent;
   o.haveGaugeAfterStop = true;
   bool failed = c02log::check(c, log, o);
+  if (std::getenv("C02_DUMP")) std::fprintf(stderr, "C02 log: %s\n", c02log::render(log.snapshot(), 400).c_str());
   // destruction after an orderly stop must not produce further events
   std::size_t nBefore = log.snapshot().size();
   t.reset();
@@ -1054,7 +1092,7 @@ void runLifecycle(const LPlan &plan, pbt::Case &c)
     {
       auto &op = plan.ops[i];
       std::uint64_t x = static_cast<std::uint64_t>(op.op) * 64;
-      if (op.op == NewConnect || op.op == NewSync || op.op == NewVia) x += static_cast<std::uint64_t>(op.a & 3);
+      if (op.op == NewConnect || op.op == NewSync || op.op == NewVia) x += static_cast<std::uint64_t>(op.a % kTargetMax);
       else if (op.op == Race) x += static_cast<std::uint64_t>(op.a % 8) + 8 * static_cast<std::uint64_t>(op.b % 8);
       else x += static_cast<std::uint64_t>(op.a % 8);
       d = pbt::hashMix(d, x);
@@ -1093,9 +1131,9 @@ LPlan genLifePlan(pbt::Src &src, bool udp)
     o.c = static_cast<int>(r[3]);
     if (o.op == NewConnect || o.op == NewSync || o.op == NewVia)
     {
-      // target weights: listening 5, refused 2, unresolvable 1, black hole 2
-      static const int tw[] = {0, 0, 0, 0, 0, 1, 1, 2, 3, 3};
-      o.a = tw[static_cast<std::size_t>(r[1]) % 10];
+      // target weights: listening 5, refused 2, unresolvable 1, black hole 2, TLS garbage 1, TLS stall 1
+      static const int tw[] = {0, 0, 0, 0, 0, 1, 1, 2, 3, 3, 4, 5};
+      o.a = tw[static_cast<std::size_t>(r[1]) % 12];
     }
     if (o.op == GcWait && !p.gcCase) o.op = Sleep;
     if (o.op == StopNow && r[1] % 3 != 0) o.op = Quiesce; // stop mid-history: rare
@@ -1166,10 +1204,25 @@ PBT_REGRESSION(all_causes_tcp)
   p.maxWriteQueue = 2;
   p.connectTimeoutMs = 60;
   p.waitBeforeStop = true;
-  p.ops = {{NewAccept, 0, 0, 0},  {NewAccept, 0, 0, 0},          {NewConnect, TListening, 1, 0}, {NewConnect, TRefused, 0, 0},
-           {NewConnect, TUnresolvable, 0, 0}, {NewConnect, TBlackHole, 0, 0}, {NewSync, TListening, 0, 0},
-           {Observe, 0, 0, 0},    {Observe, 0, 0, 0},            {SetData, 0, 0, 0},             {Observe, 2, 0, 0},
-           {AppClose, 0, 0, 0},   {PeerFin, 1, 0, 0},            {PeerRst, 2, 0, 0},             {Backpressure, 6, 0, 0},
+  // sessions: #0 accepted, #1 connect(listening), #2 refused, #3 unresolvable, #4 black hole,
+  //           #5 connectSync(listening), #6 TLS garbage, #7 TLS stall
+  p.ops = {{NewAccept, 0, 0, 0},
+           {NewConnect, TListening, 1, 0},
+           {NewConnect, TRefused, 0, 0},
+           {NewConnect, TUnresolvable, 0, 0},
+           {NewConnect, TBlackHole, 0, 0},
+           {NewSync, TListening, 0, 0},
+           {NewConnect, TTlsGarbage, 0, 0},
+           {NewConnect, TTlsStall, 0, 0},
+           {Observe, 0, 0, 0},
+           {Observe, 0, 0, 0},
+           {SetData, 0, 0, 0},
+           {Observe, 1, 0, 0},
+           {Observe, 7, 0, 0},
+           {Backpressure, 0, 0, 0},
+           {PeerFin, 1, 0, 0},
+           {PeerRst, 5, 0, 0},
+           {AppClose, 7, 0, 0},
            {Quiesce, 0, 0, 0}};
   runLifecycle(p, c);
 }
